@@ -8,7 +8,9 @@ import (
 	"io"
 	"log"
 	"os"
+	"runtime/pprof"
 
+	"github.com/sirupsen/logrus"
 	"github.com/skycoin/skycoin/src/util/logging"
 
 	"verif/engine"
@@ -26,6 +28,12 @@ func register(id, level string, f func(r *engine.Run)) {
 func main() {
 	log.SetOutput(io.Discard)
 	logging.Disable()
+	logging.SetLevel(logrus.PanicLevel) // no formatting work for discarded log lines (logger.Panic still panics)
+	if pf := os.Getenv("VERIF_PROF"); pf != "" {
+		f, _ := os.Create(pf)
+		pprof.StartCPUProfile(f)
+		defer pprof.StopCPUProfile()
+	}
 	if len(os.Args) >= 3 && os.Args[1] == "--worker" {
 		w, ok := workers[os.Args[2]]
 		if !ok {
